@@ -8,7 +8,7 @@ exactly one frame with identical bytes, type and origin, every other queue is em
 returned True, every on-air packet is <= 32 bytes."""
 from vlib.harness.runner import Result, Part, exc_signature
 from vlib.ref import netaddr
-from vlib.sim.core import MS, SimHorizon
+from vlib.sim.core import MS, US, SimHorizon
 from vlib.checks.netutil import Net
 
 PROPERTY = "C05"
@@ -134,6 +134,11 @@ def run_case(case):
                     return node.send(h, msg), h.frame_id
                 return node.write(L.Frame(h, msg)), h.frame_id
 
+            if m.get("dst_busy_ms"):
+                # the destination's application is busy with something else for a while (it does not call update()): its radio
+                # fills up and refuses fragments, the sender runs out of automatic retries and falls back on its software ones
+                net.post(m["dst"], lambda node, ms=m["dst_busy_ms"]: net.sim.advance(ms * MS))
+                net.sim.advance(200 * US)
             box = net.call(m["src"], do, timeout_ms=30000)
             settled = net.settle(4000)
             queues = net.drain_queues() if not case.get("hold") else {}
@@ -339,7 +344,27 @@ def _enum_unread():
             yield {"nodes": nodes, "frag": True, "msgs": msgs}
 
 
+def _enum_slow_receiver():
+    """direct neighbours, a fast sender and a slow receiver (and the reverse): long fragmented messages fill the receiver's
+    3-level RX FIFO faster than its application empties it, so fragments are refused at radio level and re-sent by the
+    sender's software retries - nothing is lost by the medium, the message must arrive and write() must say so"""
+    fast = {"spi": 8, "jit": 0, "seed": 1, "poll": 100}
+    for slow_spi, poll in ((400, 3000), (200, 1000), (100, 3000)):
+        slow = {"spi": slow_spi, "jit": 20, "seed": 2, "poll": poll}
+        for n in (72, 96, 120, 144):
+            for src, dst in ((0, 0o1), (0o1, 0), (0o3, 0o13)):
+                pop = sorted({0, src, dst, 0o3} if 0o13 in (src, dst) else {0, src, dst})
+                nodes = [{"addr": a, "kind": "net", "mcu": slow if a == dst else fast} for a in pop]
+                yield {"nodes": nodes, "frag": True, "msgs": [{"src": src, "dst": dst, "type": 33, "msg": bytes((7 * i + n) & 0xFF for i in range(n)).hex(),
+                                                               "id": None, "via": "write"}]}
+                for busy in (30, 60, 90):
+                    yield {"nodes": nodes, "frag": True, "msgs": [{"src": src, "dst": dst, "type": 33, "msg": bytes((7 * i + n) & 0xFF for i in range(n)).hex(),
+                                                                   "id": None, "via": "write", "dst_busy_ms": busy}]}
+
+
 def parts(tier):
     if tier == "quick":
-        return [Part("enum-unread-queues-and-multicast-off-routers", "enum", _enum_unread, exhaustive=True), Part("generated", "gen", _strategy, n=480)]
-    return [Part("enum-unread-queues-and-multicast-off-routers", "enum", _enum_unread, exhaustive=True), Part("generated", "gen", _strategy, n=20000)]
+        return [Part("enum-unread-queues-and-multicast-off-routers", "enum", _enum_unread, exhaustive=True),
+                Part("direct-fragmented-to-a-slow-receiver", "enum", _enum_slow_receiver, exhaustive=True), Part("generated", "gen", _strategy, n=480)]
+    return [Part("enum-unread-queues-and-multicast-off-routers", "enum", _enum_unread, exhaustive=True),
+            Part("direct-fragmented-to-a-slow-receiver", "enum", _enum_slow_receiver, exhaustive=True), Part("generated", "gen", _strategy, n=20000)]
